@@ -200,6 +200,11 @@ func (t *tracker) process(d D) {
 	i := t.inf[d]
 	// the signal's PTS is what it is at the time of the call (a signal can lose / gain its time between calls)
 	i.hasPTS = d.SCTE35().HasPTS()
+	if ci := d.SCTE35().CommandInfo(); ci != nil && !ci.HasPTS() {
+		// (a signal carries a PTS through its command: when the command says it has no time, the signal has none,
+		// whichever of the two objects the caller used to say so)
+		i.hasPTS = false
+	}
 	if i.hasPTS {
 		i.pts = uint64(d.SCTE35().PTS())
 		if ci := d.SCTE35().CommandInfo(); ci != nil && ci.HasPTS() && uint64(ci.PTS()) != i.pts {
@@ -589,6 +594,11 @@ func random(c *mon.Ctx, r *gen.Rand) {
 func pooled(c *mon.Ctx, r *gen.Rand) {
 	t := newTracker(c)
 	fam := []byte{0x30, 0x3c, 0x44, 0x34, 0x36, 0x35, 0x37, 0x45, 0x32}
+	if r.Chance(4) {
+		// the other family whose rows of the rule table differ only in "the start of its own kind": break,
+		// opening credits, closing credits, unscheduled event, and the chapter they sit in
+		fam = []byte{0x22, 0x23, 0x24, 0x25, 0x26, 0x27, 0x22, 0x23, 0x24, 0x25, 0x26, 0x27, 0x20, 0x21, 0x42, 0x43}
+	}
 	blk := []byte{0x20, 0x13, 0x40, 0x17, 0x10, 0x22, 0x19, 0x50}
 	var pool []byte
 	for k := 2 + r.Intn(2); k > 0; k-- {
